@@ -35,7 +35,10 @@ let sret = function
   | RHuge -> "HUGE"
   | RPtr b -> if b then "ok" else "null"
   | RCal (name, ty, rows, cols, nf, fmin, fmax) ->
-    Printf.sprintf "c%d:%d:%d:%d:%d:%d:%d" (iz name) (iz ty) (iz rows) (iz cols) (iz nf) (64 * iz fmin) (64 * iz fmax)
+    (* a calibration without frequency points has no fmin / fmax (the getters return HUGE_VAL): the fields of
+       the model's record are not used, both sides print nofreq:nofreq *)
+    if iz nf = 0 then Printf.sprintf "c%d:%d:%d:%d:%d:nofreq:nofreq" (iz name) (iz ty) (iz rows) (iz cols) (iz nf)
+    else Printf.sprintf "c%d:%d:%d:%d:%d:%d:%d" (iz name) (iz ty) (iz rows) (iz cols) (iz nf) (64 * iz fmin) (64 * iz fmax)
   | RTok None -> "none"
   | RTok (Some k) -> string_of_int (iz k)
   | RNoSuch -> "nosuch"
@@ -52,9 +55,14 @@ let digest (s : state) =
     Buffer.add_string b (Printf.sprintf "| E=%d C=[" e);
     List.iteri (fun ci c -> match c with
         | None -> ()
-        | Some c -> Buffer.add_string b (Printf.sprintf "%d:c%d:%d:%d:%d:%d:%d:%d:%s;" ci (iz c.c_name) (iz c.c_type)
-                                           (iz c.c_rows) (iz c.c_cols) (iz c.c_nf) (64 * iz c.c_fmin) (64 * iz c.c_fmax)
-                                           (stok c.c_prop))) cals;
+        | Some c ->
+          if iz c.c_nf = 0 then
+            Buffer.add_string b (Printf.sprintf "%d:c%d:%d:%d:%d:%d:nofreq:nofreq:%s;" ci (iz c.c_name) (iz c.c_type)
+                                   (iz c.c_rows) (iz c.c_cols) (iz c.c_nf) (stok c.c_prop))
+          else
+            Buffer.add_string b (Printf.sprintf "%d:c%d:%d:%d:%d:%d:%d:%d:%s;" ci (iz c.c_name) (iz c.c_type)
+                                   (iz c.c_rows) (iz c.c_cols) (iz c.c_nf) (64 * iz c.c_fmin) (64 * iz c.c_fmax)
+                                   (stok c.c_prop))) cals;
     let t = s.st_pt in
     Buffer.add_string b (Printf.sprintf "] G=%s W=%d:%d:%d:%d P=[" (stok s.st_gprop) (List.length t.pt_slots)
                            (int_of_nat t.pt_count) (int_of_nat t.pt_first_free) (List.length cals));
@@ -114,7 +122,19 @@ let () =
               | _ -> failwith ("unknown op " ^ opn)) in
           let (s1, out) = (if asis then step_asis else step) !st o in
           st := s1;
-          Printf.printf "%s r=%s e=%s cb=%d %s\n%!" opn (if opn = "pget" && out.o_ret = RTok None then "null" else sret out.o_ret) (serr out.o_err) (int_of_nat out.o_cb) (digest !st)
+          (* between the knots of a vector parameter the integer model answers RInterp; the number is
+             CalTabVectorModel.get_value_q (_vnacal_rfi of property C10 on the supplied points), printed as exact
+             fractions of 1/64 units: q<num>/<den>,q<num>/<den> *)
+          let rs = (match o, out.o_ret with
+              | OGetValue (h, f), RInterp ->
+                (match get_value_q s1.st_pt h f with
+                 | Some v ->
+                   let qs (x : qc) = let q = x.this in
+                     Printf.sprintf "q%s/%s" (ZZ.to_string (ZZ.mul (ZZ.of_int 64) (z_of_coqz q.qnum))) (ZZ.to_string (z_of_pos q.qden)) in
+                   qs v.qre ^ "," ^ qs v.qim
+                 | None -> "NOVALUE")
+              | _, _ -> if opn = "pget" && out.o_ret = RTok None then "null" else sret out.o_ret) in
+          Printf.printf "%s r=%s e=%s cb=%d %s\n%!" opn rs (serr out.o_err) (int_of_nat out.o_cb) (digest !st)
         end
       end
     done
